@@ -74,6 +74,14 @@ def value_fp(v, depth=0):
 
 def state_fp(obj):
     """Fingerprint of a plain object's __dict__ (settings, preloads, default-argument objects)."""
+    if not hasattr(obj, "__dict__"):
+        # containers and arrays used as default arguments (list, dict, set, ndarray): fingerprint of the value itself
+        if isinstance(obj, dict):
+            return hashlib.sha1(("dict:" + "|".join(repr(k) + "=" + value_fp(v) for k, v in sorted(obj.items(), key=lambda kv: repr(kv[0])))).encode()).hexdigest()[:16]
+        if isinstance(obj, (list, set)):
+            items = list(obj) if isinstance(obj, list) else sorted(obj, key=repr)
+            return hashlib.sha1((type(obj).__name__ + ":%d:" % len(items) + "|".join(value_fp(v) for v in items)).encode()).hexdigest()[:16]
+        return hashlib.sha1(("value:" + value_fp(obj)).encode()).hexdigest()[:16]
     parts = []
     for k, x in sorted(vars(obj).items()):
         parts.append(k + "=" + value_fp(x))
